@@ -352,7 +352,7 @@ class IntegralGenerator:
                         assert isinstance(vdef, L.Section)
                     # Only add if definition is unique.
                     # This can happen when using sub-meshes
-                    if vdef not in definitions:
+                    if vdef and vdef not in definitions:
                         definitions += [vdef]
                 else:
                     # Get previously visited operands
